@@ -91,6 +91,7 @@ def decodeEv (j : Json) : Except String Ev := do
   | "rmEp" => pure (.removeEndpoint (← J.getNat j "inst") (← J.getHex j "name"))
   | "dropTok" => pure (.dropTok (← J.getHex j "host") (← J.getNat j "inst"))
   | "dropSar" => pure (.dropSar (← J.getHex j "host") (← J.getNat j "inst"))
+  | "dropStopped" => pure .dropStopped
   | e => throw s!"unknown event {e}"
 
 /-- nesting is bounded by `fuel` (the harness nests at most three deep) -/
